@@ -56,12 +56,49 @@ def outcome_of(run):
         return {'records': None, 'header': None, 'warnings': None, 'error': [c[0], c[2]]}
 
 
-def solo(text, A, B, names):
+_SHARED = {}
+
+
+def shared_table(A):
+    k = json.dumps(A)
+    if k not in _SHARED:
+        _SHARED[k] = [list(r) for r in A]
+    return _SHARED[k]
+
+
+def solo(text, A, B, names, style='full'):
+    """style: how the public function is called - 'full' (every argument, positionally), 'defaults' (optional arguments left to their defaults,
+    so the output header is not observable), 'kw' (every argument by keyword)"""
     eng = tree.engine()
 
     def run():
         out, warns, hdr = [], [], []
-        eng.query_table(text, [list(r) for r in A], out, warns, [list(r) for r in B] if B is not None else None, names, None if (B is None or names is None) else ['jk', 'jv'], hdr)
+        A2, B2 = [list(r) for r in A], [list(r) for r in B] if B is not None else None
+        bn = None if (B is None or names is None) else ['jk', 'jv']
+        if style in ('shared', 'shared_csv'):
+            # the caller keeps ONE table object in memory and runs query after query on it (no private copy per call)
+            A2 = shared_table(A)
+            if style == 'shared':
+                eng.query_table(text, A2, out, warns, B2, names, bn, hdr)
+                return out, hdr, warns
+            import io
+            stream = io.StringIO()
+            eng.query(text, eng.TableIterator(A2, names), tree.csvmod().CSVWriter(stream, False, None, ',', 'quoted'), warns)
+            return stream.getvalue().split('\n'), None, warns
+        if style == 'defaults':
+            kw = {}
+            if B2 is not None:
+                kw['join_table'] = B2
+            if names is not None:
+                kw['input_column_names'] = names
+            if bn is not None:
+                kw['join_column_names'] = bn
+            eng.query_table(text, A2, out, warns, **kw)
+            return out, None, warns
+        if style == 'kw':
+            eng.query_table(query_text=text, input_table=A2, output_table=out, output_warnings=warns, join_table=B2, input_column_names=names, join_column_names=bn, output_column_names=hdr, normalize_column_names=True, user_init_code='')
+            return out, hdr, warns
+        eng.query_table(text, A2, out, warns, B2, names, bn, hdr)
         return out, hdr, warns
     return outcome_of(run)
 
@@ -164,32 +201,47 @@ def part_threads(sh, res):
 
 # ---------------------------------------------------------------- histories
 
-def scenarios():
+def scenarios(which='main'):
+    if which == 'shared':
+        # one table object shared by every event of the history (None cells, a list-free rectangular table): no query may leave a trace in it
+        Ts = [['k', None, 'x'], ['m', '2', 'y'], ['k', None, 'z']]
+        Tn = [['k', '1'], ['m', '2']]
+        return [
+            ('select *', Ts, None, None, 'shared_csv'),
+            ('select a1, a2 == None, NF, a3', Ts, None, None, 'shared'),
+            ('select distinct count *', Ts, None, None, 'shared_csv'),
+            ("update set a3 = a3 + '!'", Ts, None, None, 'shared'),
+            ('select * except a1', Ts, None, None, 'shared_csv'),
+            ('select a.*, NR order by a3 desc', Ts, None, None, 'shared_csv'),
+            ('select *', Tn, None, ['name', 'val'], 'shared'),
+            ("update set a.val = a.val + a.name", Tn, None, ['name', 'val'], 'shared'),
+            ('select top 1 *', Ts, None, None, 'shared_csv'),
+        ]
     T0 = [['k', '1;2'], ['m', '3'], ['k', '4;5']]
     Tn = [['k', '2'], ['m', '10'], ['k', '3']]
     Ti = [['k', 2], ['m', 10], ['k', 3]]
     B = [['k', 'p'], ['k', 'q'], ['m', 'r']]
     return [
-        ("select a1, a2 where like(a1, 'k%')", T0, None, None),
+        ("select a1, a2 where like(a1, 'k%')", T0, None, None, 'defaults'),
         ('select a1, count(*), sum(a2) group by a1', Tn, None, None),
         ('select max(a2), avg(a2)', Ti, None, None),
-        ('select a1, b2 join b on a1 == b1', T0, B, None),
+        ('select a1, b2 join b on a1 == b1', T0, B, None, 'kw'),
         ("select like(a2, 'k%'), a1 where like(a1, 'k_') or like(a1, 'k')", [['k', 'km'], ['kx', 'k%'], ['m', 'k']], None, None),
         ("select a1, unnest(a2.split(';'))", T0, None, None),
         ("select a1 where a1 = 'x'", T0, None, None),
         ('select a1, sum(a2) group by a1', [['k', '2'], ['m', 'zz'], ['k', '3']], None, None),
         ("update set a2 = a1 + '!' where NR != 2", T0, None, None),
-        ('select a.name, a["val"], a[\'val\']', [['k', '1'], ['m', '2']], None, ['name', 'val']),
+        ('select a.name, a["val"], a[\'val\']', [['k', '1'], ['m', '2']], None, ['name', 'val'], 'defaults'),
         ('select a.name, a["val"], a[\'val\']', [['k', '1'], ['m', '2']], None, ['val', 'name']),
         ('select avg(a2), variance(a2), a1 group by a1', Tn, None, None),
         ('select distinct count a1 order by a1 desc', T0, None, None),
         ('select unnest([a1]), unnest([a2])', T0, None, None),          # parsing error raised inside the main loop
         ("select " + ", ".join("like(a1, 'k%s%%')" % c for c in 'abcdefghij') + ", like(a2, '%_')", [['ka', 'x'], ['kj', ''], ['k', 'y']], None, None),     # ten distinct LIKE patterns
         ("select like(a1, 'ka%'), like(a1, 'kj%'), like(a2, '%_'), like(a1, 'k_')", [['kax', 'x'], ['kj', ''], ['ka', 'y']], None, None),
-        ('select distinct count a.name, a2 + "!"', [['k', '1'], ['k', '1'], ['m', '2']], None, ['name', 'val']),
+        ('select distinct count a.name, a2 + "!"', [['k', '1'], ['k', '1'], ['m', '2']], None, ['name', 'val'], 'defaults'),
         ('select a1, int(a2) order by a1 desc', [['k', '1'], ['m', 'bad'], ['k', '3']], None, None),      # fails at record 2 with rows already buffered for sorting
         ('select a2, a1 order by a2', [['k', '7'], ['m', '5']], None, None),
-        ('select a["val"], NR', [['k', '1'], ['m', '2']], None, ['name', 'val']),
+        ('select a["val"], NR', [['k', '1'], ['m', '2']], None, ['name', 'val'], 'kw'),
         ('select a["val"], NR', [['k', '1'], ['m', '2']], None, ['name', 'other']),          # alone: No "val" field at record 1
         ('select min(a2), max(a2), sum(a2), avg(a2), variance(a2), median(a2)', Tn, None, None),
         ('select min(a2), max(a2), sum(a2), avg(a2), variance(a2), median(a2)', [['k', 1.5], ['m', 2.75], ['k', -4.25]], None, None),
@@ -246,7 +298,7 @@ def explore(history, depth, S, fresh, summary):
 
 
 def part_history(sh, res):
-    S = scenarios()
+    S = scenarios(sh.get('which', 'main'))
     fresh = sh['fresh']
     prefix = sh['prefix']
     # bring this worker's interpreter into the state reached by the prefix (each prefix node is judged by the shard that owns it)
@@ -281,11 +333,11 @@ def part_history(sh, res):
     res.evaluations += summary['nodes']
     res.traces += summary['nodes']
     res.nontrivial += summary['nodes'] if len(prefix) >= 1 else 0
-    res.feat('history_nodes', summary['nodes'])
+    res.feat('history_nodes' if sh.get('which', 'main') == 'main' else 'shared_table_history_nodes', summary['nodes'])
     for d in summary['digests']:
         res.outcome('module-state:' + d)
     for v in summary['viol']:
-        res.violation('history-changes-result', {'kind': 'history', 'history': v['history'], 'queries': [S[i][0] for i in v['history']]}, v['expected'], v['observed'])
+        res.violation('history-changes-result', {'kind': 'history', 'which': sh.get('which', 'main'), 'history': v['history'], 'queries': [S[i][0] for i in v['history']]}, v['expected'], v['observed'])
     res.sample({'history_prefix': [S[i][0] for i in prefix], 'subtree_depth': sh['depth']})
 
 
@@ -333,14 +385,22 @@ def main(tier, seed):
         shards.append({'part': 'history', 'prefix': [a], 'depth': 0, 'fresh': hfresh, 'judge_prefix': True})
         for b in range(len(S)):
             shards.append({'part': 'history', 'prefix': [a, b], 'depth': depth - pre, 'fresh': hfresh, 'judge_prefix': True})
+    S2 = scenarios('shared')
+    sfresh = fresh_outcomes(S2)
+    sdepth = 6 if tier == 'thorough' else 4
+    shards.append({'part': 'history', 'which': 'shared', 'prefix': [], 'depth': 0, 'fresh': sfresh, 'judge_prefix': False})
+    for a in range(len(S2)):
+        shards.append({'part': 'history', 'which': 'shared', 'prefix': [a], 'depth': 0, 'fresh': sfresh, 'judge_prefix': True})
+        for b in range(len(S2)):
+            shards.append({'part': 'history', 'which': 'shared', 'prefix': [a, b], 'depth': sdepth - pre, 'fresh': sfresh, 'judge_prefix': True})
     res = core.run_shards('vf.checks.c16', shards)
     return core.finish(PID, tier, seed, res, t0,
         rule='threads: all unordered pairs of 14 query kinds (same-kind pairs with different data) x every interleaving of their scheduling points (start, each get_record on input and join table, each write, finish) within the preemption bound, plan (records, bound) = %r; '
-             'histories: the complete tree of sequences of <= %d events over 25 scenarios, every node a forked live interpreter; states = interleavings + history nodes, transitions = baton grants + history edges; '
-             'non-trivial = schedules with >= 2 context switches / histories of length >= 1' % (plan, depth),
+             'histories: the complete tree of sequences of <= %d events over 25 scenarios, every node a forked live interpreter; a second tree of sequences of <= %d events over 9 scenarios that all run on the SAME caller-owned table objects (None cells, CSV and table writers); states = interleavings + history nodes, transitions = baton grants + history edges; '
+             'non-trivial = schedules with >= 2 context switches / histories of length >= 1' % (plan, depth, sdepth),
         assumptions=['scheduling points are exactly the points the property names; code between them runs atomically', 'the solo outcome is computed in a fresh python subprocess per query'],
         extra={'pairs': npairs, 'interleavings': total_interleavings, 'history_depth': depth, 'plan_records_and_preemption_bound': [[n, ('all' if b is None else b)] for n, b in plan]},
-        min_features={'history_nodes': 1000})
+        min_features={'history_nodes': 1000, 'shared_table_history_nodes': 1000})
 
 
 def replay(rep):
@@ -358,7 +418,7 @@ def replay(rep):
         print('schedule:', trace)
         return 1 if bad else 0
     if c.get('kind') == 'history':
-        S = scenarios()
+        S = scenarios(c.get('which', 'main'))
         fresh = fresh_outcomes([S[i] for i in c['history']])
         got = None
         for k, ei in enumerate(c['history']):
